@@ -4,4 +4,4 @@ Require Import ExtrOcamlBasic.
 Extraction "mdiff_model.ml" MdiffModel.pipeline MdiffModel.new_chunks MdiffModel.add_context
   MdiffModel.add_context_prefix MdiffModel.unify_chunks MdiffModel.len EditModel.edit_script_run
   MdiffSpec.script_okb MdiffSpec.chunk_okb MdiffSpec.separatedb MdiffSpec.applies
-  MdiffSpec.apply_chunks MdiffSpec.lead_ctx MdiffSpec.trail_ctx MdiffSpec.changes MdiffHistModel.run_trace MdiffHistModel.run_ops base_types.
+  MdiffSpec.apply_chunks MdiffSpec.lead_ctx MdiffSpec.trail_ctx MdiffSpec.changes MdiffSpec.span_of MdiffSpec.unified_spans MdiffHistModel.run_trace MdiffHistModel.run_ops base_types.
